@@ -127,6 +127,10 @@ pub fn boundary_clear_strategy() -> impl Strategy<Value = Op> {
 pub trait Env {
     fn create_with(&self, kp: PartialKeypair, cache: hc::CacheCfg) -> CallResult<Hypercore>;
     fn open_with(&self, cache: hc::CacheCfg) -> CallResult<Hypercore>;
+    /// Create a core over whatever the storage holds, with `overwrite = true`.
+    fn recreate_with(&self, kp: PartialKeypair, cache: hc::CacheCfg) -> CallResult<Hypercore>;
+    /// A new, empty storage of the same kind.
+    fn fresh_like(&self) -> Self;
     /// Contents of the four files as read back through the backend.
     fn files(&self) -> crate::backend::Files;
     fn create(&self, kp: PartialKeypair) -> CallResult<Hypercore> {
@@ -143,6 +147,14 @@ impl Env for Disk {
     }
     fn open_with(&self, cache: hc::CacheCfg) -> CallResult<Hypercore> {
         hc::open_with(self, cache)
+    }
+    fn recreate_with(&self, kp: PartialKeypair, cache: hc::CacheCfg) -> CallResult<Hypercore> {
+        hc::create_overwrite_with(self, kp, cache)
+    }
+    fn fresh_like(&self) -> Self {
+        let d = Disk::new();
+        d.0.journaling.store(self.0.journaling.load(std::sync::atomic::Ordering::SeqCst), std::sync::atomic::Ordering::SeqCst);
+        d
     }
     fn files(&self) -> crate::backend::Files {
         self.snapshot()
